@@ -265,8 +265,9 @@ def static_checks(x: Extraction, findings):
             if k in BLOCKING:
                 fail('C10', 'emit-never-blocks', 'emit performs the blocking operation `%s`: %s' % (k, ' ; '.join(fmt_op(o) for o in ops)))
                 findings[-1]['scenario'] = {'kind': 'queue-blocking-emit'}
-            if k in ('wrapped_emit', 'wrapped_flush', 'handler'):
+            if k in ('wrapped_emit', 'wrapped_flush', 'wrapped_stats', 'handler'):
                 fail('C10', 'emit-never-runs-sink', 'emit runs the wrapped sink / handler on the caller thread')
+                findings[-1]['scenario'] = {'kind': 'queue-emit-calls-sink'}
             if k == 'load' or k == 'is_empty' or k == 'is_full' or k == 'chan_len':
                 # result must depend on queue room only
                 if k == 'load':
@@ -323,9 +324,11 @@ def static_checks(x: Extraction, findings):
                     flagged_batch = True
                     for prop in ('C08', 'C11'):
                         fail(prop, 'one-entry-in-flight', 'the worker takes a second entry off the queue before the first was handed to the wrapped sink: %s' % ' ; '.join(fmt_op(o2) for o2 in ops[:12]))
-                        findings[-1]['scenario'] = {'kind': 'queue', 'capacity': 4 if x.cap_mode == 'bounded' else None, 'handler': x.handler, 'builder_order': x.order,
-                                                    'steps': [{'do': 'emit'}, {'do': 'wait_enter'}, {'do': 'emit'}, {'do': 'emit'}, {'do': 'emit'},
-                                                              {'do': 'release', 'outcome': 'ok'}, {'do': 'wait_enter'}, {'do': 'release', 'outcome': 'panic'}]}
+                        # a backlog of 24 behind a busy worker (batch thresholds), then a panic on the third delivery
+                        findings[-1]['scenario'] = {'kind': 'queue', 'capacity': 64 if x.cap_mode == 'bounded' else None, 'handler': x.handler, 'builder_order': x.order,
+                                                    'steps': [{'do': 'emit'}, {'do': 'wait_enter'}] + [{'do': 'emit'}] * 24 +
+                                                             [{'do': 'release', 'outcome': 'ok'}, {'do': 'wait_enter'}, {'do': 'release', 'outcome': 'ok'}, {'do': 'wait_enter'},
+                                                              {'do': 'release', 'outcome': 'panic'}]}
             if o['kind'] == 'wrapped_emit':
                 inflight = max(0, inflight - 1)
     for ops, leaf in worker.paths:
